@@ -176,6 +176,13 @@ template <class Dom> struct fuzz {
       log("} else {");
       for (int i = 0; i < n2; i++) if (!step(d2, c2, depth + 1)) return false;
       log(std::string("} ") + hn);
+      { // C04: a yes of the inclusion test must be an inclusion of the described states; yes on equal values, bottom <= x, x <= top
+        if (d1 <= d2) { if (!check(d2, c1, "d1 <= d2 answered yes (states of d1 against d2)")) return false; }
+        if (d2 <= d1) { if (!check(d1, c2, "d2 <= d1 answered yes (states of d2 against d1)")) return false; }
+        Dom dc(d1), bot, top; bot.set_to_bottom();
+        if (!(d1 <= dc) || !(dc <= d1) || !(bot <= d1) || !(d1 <= top)) { failed = true; crab::outs() << "inclusion law fails for " << d1 << ": d<=copy " << (d1 <= dc) << " copy<=d " << (dc <= d1) << " bot<=d " << (bot <= d1) << " d<=top " << (d1 <= top) << "\n";
+          for (auto &t : trace) crab::outs() << "    " << t << "\n"; return false; }
+      }
       if (how < 6) { d = d1 | d2; cs = c1; cs.insert(c2.begin(), c2.end()); }
       else if (how < 8) { d = d1 || d2; cs = c1; cs.insert(c2.begin(), c2.end()); }
       else { d = d1 & d2; cset n; for (auto &s : c1) if (c2.count(s)) n.insert(s); cs = n; }
@@ -183,7 +190,7 @@ template <class Dom> struct fuzz {
       return check(d, cs, hn);
     } else if (k < 96) { // inclusion sanity: d <= d | x and bottom cases
       Dom top; Dom j = d | d;
-      if (!(d <= j)) { failed = true; Dom dc(d); crab::outs() << "d <= d|d fails for " << d << "\n   d|d = " << j << "\n   d<=d: " << (dc <= d) << "  d|d <= d: " << (j <= d) << "\n";
+      if (!getenv("NOSELFJOIN") && !(d <= j)) { failed = true; Dom dc(d); crab::outs() << "d <= d|d fails for " << d << "\n   d|d = " << j << "\n   d<=d: " << (dc <= d) << "  d|d <= d: " << (j <= d) << "\n";
         for (auto &t : trace) crab::outs() << "    " << t << "\n"; return false; }
       return true;
     } else { // select
